@@ -93,6 +93,17 @@ Definition cell_border (c : box) : list event :=
 Definition group_borders (g : box) : list event :=
   flat_map (fun r => flat_map cell_border (filter stays (kids_of r))) (filter stays (kids_of g)).
 
+(* a row group or row that is itself painted as a context: its own background comes first (steps 1-2), then what
+   the table would have painted for it: its rows' and cells' backgrounds, then the cells' borders *)
+Definition table_part_bgs (b : box) : list event :=
+  let st := filter stays (kids_of b) in
+  match knd (binfo b) with
+  | KRowGroup => flat_map (row_bgs false) st ++
+                 flat_map (fun r => flat_map cell_border (filter stays (kids_of r))) st
+  | KRow => flat_map (cell_bg false) st ++ flat_map cell_border st
+  | _ => []
+  end.
+
 Fixpoint appendix_E (f : nat) (m : smode) (b : box) {struct f} : list event :=
   match f with
   | O => []
@@ -124,6 +135,7 @@ Fixpoint appendix_E (f : nat) (m : smode) (b : box) {struct f} : list event :=
           (if opa i then [EOpen id BGroup] else []) ++
           (match tm i with TRegular => [ESet id GTransform] | _ => [] end) ++
           (if is_inline (knd i) || is_page (knd i) then [] else [EPaint id LBg; EPaint id LBorder]) ++
+          table_part_bgs b ++
           EOpen id BInner ::
           (if ovf i && negb (is_page (knd i)) then [ESet id GClip] else []) ++
           flat_map (appendix_E f' cm) (sort_z zkey (filter (fun c => zkey c <? 0) cs)) ++
@@ -195,7 +207,8 @@ Fixpoint wf_from (root : bool) (b : box) : bool :=
   match b with Box i kids => wf_node root b && forallb (wf_from false) kids end.
 Definition wf (b : box) : bool := wf_from true b.
 Definition wf_page (page : box) : bool :=
-  is_page (knd (binfo page)) && negb (has_z (binfo page)) && forallb wf (bkids page).
+  is_page (knd (binfo page)) &&
+  forallb (fun c => wf c && (z_applies (binfo c) || (z_of (binfo c) =? 0))) (bkids page).
 
 (* no transform with determinant 0 (such a subtree is legitimately not painted at all) *)
 Fixpoint regular (b : box) : bool :=
@@ -236,3 +249,68 @@ Definition ctx_zero (c : pnode) : list pnode := match c with PC _ _ _ z _ _ _ _ 
 Definition ctx_pos (c : pnode) : list pnode := match c with PC _ _ _ _ p _ _ _ _ => p | PB _ _ => [] end.
 Definition ctx_tree (c : pnode) : list pnode :=
   if is_parent (knd (pinfo c)) then flat_map tree_nodes (pkids c) else [].
+
+(* ------------------------------------------------------------ brackets: opacity group, transform, clip *)
+
+Definition event_id (e : event) : Z :=
+  match e with EPaint i _ | EOpen i _ | EClose i _ | ESet i _ | EAssert i => i end.
+
+(* q/Q and group brackets are well nested: [bal st l] runs l over a stack of open brackets *)
+Fixpoint bal (st : list (Z * bracket)) (l : list event) : option (list (Z * bracket)) :=
+  match l with
+  | [] => Some st
+  | EOpen i b :: r => bal ((i, b) :: st) r
+  | EClose i b :: r =>
+      match st with
+      | (j, c) :: st' => if (i =? j) && bracket_eqb b c then bal st' r else None
+      | [] => None
+      end
+  | _ :: r => bal st r
+  end.
+Definition balanced (l : list event) : Prop := forall st, bal st l = Some st.
+
+(* every box id that occurs anywhere in a structure (aliases included) *)
+Fixpoint mentioned (n : pnode) : list Z :=
+  match n with
+  | PB i kids => bid i :: flat_map mentioned kids
+  | PC i kids neg zero pos_ blocks floats bcs _ =>
+      bid i :: flat_map mentioned kids ++ flat_map mentioned neg ++ flat_map mentioned zero ++
+      flat_map mentioned pos_ ++ flat_map mentioned blocks ++ flat_map mentioned floats ++
+      flat_map mentioned bcs
+  end.
+
+(* the pieces of draw_stacking_context(c) for a context whose transform is not singular:
+   paint_ctx c = EOpen BStack :: clips ++ group_open ++ transform ++ ctx_inner c ++ group_close ++ [EClose BStack]
+   ctx_inner c = own background/border ++ EOpen BInner :: overflow clip ++ ctx_body c ++ EClose BInner :: outlines *)
+Definition ctx_body (c : pnode) : list event :=
+  match c with
+  | PC i kids neg zero pos_ blocks floats bcs _ =>
+      let id := bid i in
+      flat_map (paint MCtx) neg ++ flat_map (paint MBlock) blocks ++ flat_map (paint MCtx) floats ++
+      (if is_inline (knd i) then EPaint id LBg :: EPaint id LBorder :: flat_map (paint MInline) kids else []) ++
+      (if is_replaced (knd i) then [EPaint id LContent]
+       else if last_is_line kids then flat_map (paint MInline) kids else []) ++
+      flat_map (paint MLines) bcs ++ flat_map (paint MCtx) zero ++ flat_map (paint MCtx) pos_
+  | PB _ _ => []
+  end.
+Definition ctx_own_bg (c : pnode) : list event :=
+  if point2_class (knd (pinfo c)) then [EPaint (pid c) LBg; EPaint (pid c) LBorder] else [].
+Definition ctx_clip (c : pnode) : list event :=
+  if ovf (pinfo c) && negb (is_page (knd (pinfo c))) then [ESet (pid c) GClip] else [].
+Definition ctx_outlines (c : pnode) : list event :=
+  EPaint (pid c) LOutline :: flat_map (paint MOutline) (pkids c).
+Definition ctx_inner (c : pnode) : list event :=
+  ctx_own_bg c ++ EOpen (pid c) BInner :: ctx_clip c ++ ctx_body c ++ EClose (pid c) BInner :: ctx_outlines c.
+Definition ctx_pre (c : pnode) : list event :=
+  (if rcl (pinfo c) then [ESet (pid c) GRootClip] else []) ++
+  (if abspos (pinfo c) && clp (pinfo c) then [ESet (pid c) GClipProp] else []).
+Definition group_open (c : pnode) : list event := if opa (pinfo c) then [EOpen (pid c) BGroup] else [].
+Definition group_close (c : pnode) : list event := if opa (pinfo c) then [EClose (pid c) BGroup] else [].
+Definition transform_set (c : pnode) : list event :=
+  match tm (pinfo c) with TRegular => [ESet (pid c) GTransform] | _ => [] end.
+
+(* subsequence (tree order is the order of [preorder]) *)
+Inductive subseq {A} : list A -> list A -> Prop :=
+| subseq_nil l : subseq [] l
+| subseq_skip x l1 l2 : subseq l1 l2 -> subseq l1 (x :: l2)
+| subseq_take x l1 l2 : subseq l1 l2 -> subseq (x :: l1) (x :: l2).
